@@ -388,8 +388,6 @@ def finish(pid, tier, seed, mod, results, t0, extra_cov=None):
         print("  truncated (budget/max_paths):", truncated[:8])
     if agg["inconclusive"]:
         print(f"  INCONCLUSIVE: {agg['inconclusive']} obligation(s) returned unknown; they are not counted as discharged")
-    if violations:
-        return 1
     if harness_problem:
         for tid, f in fatal[:5]:
             print(f"HARNESS-ERROR fatal in {tid}: {f[-700:]}")
@@ -401,8 +399,9 @@ def finish(pid, tier, seed, mod, results, t0, extra_cov=None):
             print(f"HARNESS-ERROR counterexample not reproduced on the real code: {json.dumps(c, default=str)[:700]}")
         if agg["ret_paths"] == 0:
             print("HARNESS-ERROR nothing explored")
-        return 3
-    return 0
+    if violations:
+        return 1
+    return 3 if harness_problem else 0
 
 
 def _z3v():
